@@ -4,17 +4,25 @@ import vlib
 
 TARGETS = ["Base/Corr.vo", "Base/Fl.vo", "Base/Num.vo", "C01/Model.vo", "C01/Corr.vo", "C01/ModelR.vo", "C01/CorrR.vo",
            "C01/Spec.vo", "C01/ProofsList.vo", "C01/ProofsComb.vo", "C01/ProofsCoef.vo", "C01/ProofsJet.vo",
-           "C01/ProofsRefuted.vo", "C01/Props.vo"]
+           "C01/ProofsRefuted.vo", "C01/ProofsStore.vo", "C01/ProofsOps.vo", "C01/ProofsSound.vo", "C01/ProofsChain2.vo",
+           "C01/ProofsProg.vo", "C01/Props.vo"]
 PROPS = ["C01/Props.v"]
-PARTIAL = ("Model follows /repo HEAD incl. d9fca78 (Set), 2fc8894 (ABS), 7035970 (Log1pExp). Theorems are over the reals and about the hand-written register-file model coq/C01/Model.v: combinator algebra "
-           "(all n, orders 0-2, all receiver/operand aliasing for one argument; two arguments except a receiver that is an "
-           "operand of smaller N/order), coefficient correctness of Neg Sin Cos Sinh Cosh Tan Tanh Exp Log Log1p Pow(const) "
-           "Add Sub Mul Div, Erf Erfc Gamma Lgamma relative to Section hypotheses, and the chain-rule bridge to partial "
-           "derivatives. NOT proved: the structural induction over whole expression trees (ad_sound), the composite "
-           "programs (Sigmoid, LogAdd, Log1pExp, SmoothMax, Vnorm ...), Pow with a variable exponent, LogErfc, Mlgamma, "
-           "GammaP, Bessel: these are tied by the correspondence only. Binary64/binary32 rounding is covered per sampled "
-           "case: bit-exact single-step replay of every operation (libm results supplied as oracle) and Coq-Interval "
-           "certificates |model_R - Go| <= 2^-40 relative for the elementary operations and depth<=3 DAGs.")
+PARTIAL = ("Theorems are over the reals and about the hand-written register-file model coq/C01/Model.v (tied to /repo HEAD by the "
+           "bit-exact single-step replay). Proved: combinator algebra (all n, orders 0-2, all aliasing for one argument; two arguments "
+           "except a receiver that is an operand of smaller N/order), coefficient correctness of Neg Sin Cos Sinh Cosh Tan Tanh Exp Log "
+           "Log1p Pow(const) and of the dyadic entries Add Sub Mul Div Pow(variable exponent, x>0) along every curve, Erf Erfc Gamma "
+           "Lgamma relative to Section hypotheses, one- and two-argument chain-rule bridges, storage operations (Reset/SetFloat64 zero "
+           "every slot for any stale content, Set copies the jet, SetVariable), ad_sound for expression trees compiled to SSA register "
+           "programs over all table operations (value, all first and second partials via is_derive, symmetry, zero slots for unmentioned "
+           "variables, constants), composite programs Logistic, Sigmoid (both branches), Log1pExp (4 branches, exact on (-37,18], "
+           "coefficient error bounds elsewhere), Sqrt, Abs off 0 (+ concrete ABS), Min, Max, LogAdd, LogSub (+ -Inf short cuts for every "
+           "carrier), Mtrace and Vmean on a reused accumulator. NOT proved: SmoothMax, LogSmoothMax, VdotV, Vnorm, Mnorm (no Coq "
+           "statement), reductions on a FRESH (order 0) accumulator (reallocated by AllocForTwo: excluded by alloc_keeps), composite "
+           "instructions / shared sub-results as nodes of ad_sound's expression type, LogErfc Mlgamma GammaP Bessel coefficients: "
+           "correspondence and certificates only. Binary64/binary32 rounding is covered per sampled case: bit-exact single-step replay "
+           "of every operation (libm results supplied as oracle; deterministic streams for restarted registers with stale raw content "
+           "and for Pow with a magic exponent) and Coq-Interval certificates |model_R - Go| <= 2^-40 relative for the elementary "
+           "operations and depth<=3 DAGs.")
 CORPUS = os.path.join(vlib.ROOT, "corpus/C01/corpus.jsonl")
 
 
